@@ -282,7 +282,14 @@ def check(run):
         for s in range(n_rshards):
             gen_jobs.append(ex.submit(_gen, run, "rand", f"r{s}",
                                       {"GEN_FROM": 1 + s * per, "GEN_TO": min(n_rand, (s + 1) * per)}))
+        # (d) first fixes straddling every NL transition latitude (quick: a seeded third of them)
+        n_nlshards = 3 if thorough else 1
+        per = (58 * 96 + n_nlshards - 1) // n_nlshards
+        for s in range(n_nlshards):
+            gen_jobs.append(ex.submit(_gen, run, "nl", f"n{s}",
+                                      {"GEN_FROM": 1 + s * per, "GEN_TO": min(58 * 96, (s + 1) * per)}))
         gens = [f.result() for f in gen_jobs]
+    n_nl = sum(n for path, n, r in gens if os.path.basename(path).startswith("n"))
     hists_total = len(hists)
     del hists
 
@@ -331,6 +338,7 @@ def check(run):
         "scenarios_from_attacks": n_attack,
         "abstract_histories": hists_total - n_attack,
         "random_2d_scenarios": n_rand,
+        "nl_transition_first_fix_scenarios": n_nl,
         "rejected_scenarios": n_rej,
         "model_checking": mc_cov,
         "attacks": attack_cov,
@@ -346,7 +354,10 @@ def check(run):
                 "delivered reports over the gaps {0,1,9,10,17,179,180,472,1000,1888} s (thorough: also {16,181,480,1920}, "
                 "and <= 4 in-order reports over 10 gaps), motion {0,+-1} u/s, both parities, airborne/surface, swaps of "
                 "consecutive reports <= 181 s apart, starts {64,500} u (and 3290 u next to an NL transition). REPLAYED on the code: attack counterexamples, every "
-                "history of 2 delivered reports, TLC-simulated histories of 4, seeded random 2-D scenarios. "
+                "history of 2 delivered reports, TLC-simulated histories of 4, seeded random 2-D scenarios, and first fixes whose even/odd pair straddles an "
+                "NL transition latitude (all 58 x 2 hemispheres x north/south x both parity orders x first-heard / "
+                "after > 180 s of silence x in order / swapped x longitudes 15, -91, 170 deg in the thorough tier; a "
+                "seeded third of the transitions, one longitude each, in the quick tier). "
                 "distinct_nontrivial = distinct scenarios (hash of reference and delivered reports) in which at least "
                 "one report was given a position.",
     })
